@@ -91,15 +91,17 @@ theorem flush_plan {cfg : Config} (hc : PlainCfg cfg) (inp : Bytes) (s : ML) (hs
   | none =>
     refine ⟨s.core, true, by simp [mlFlush, hl], hs, by simp [pendingList, hl]⟩
   | some r =>
-    have e1 : mlFlush cfg allCont inp s true = mlSinkMatched cfg allCont inp s.core r := by
-      unfold mlFlush; simp only [if_true, hl, mlSinkContext_plain hc inp hs]
-    rw [e1, mlSinkMatched_plain hc inp hs]
     by_cases hne : nonEmpty r = true
-    · rw [if_pos hne]
+    · have he : ¬ (r.e - r.s == 0) = true := by simpa [nonEmpty] using hne
+      have e1 : mlFlush cfg allCont inp s true = mlSinkMatched cfg allCont inp s.core r := by
+        unfold mlFlush; simp only [if_true, hl, if_neg he, mlSinkContext_plain hc inp hs]
+      rw [e1, mlSinkMatched_plain hc inp hs, if_pos hne]
       exact ⟨_, true, rfl, ⟨rfl, hs.ln, hs.bbo, hs.abs⟩, by simp [pendingList, hl, hne]⟩
-    · rw [if_neg hne]
-      exact ⟨s.core, false, rfl, hs, by simp [pendingList, hl, hne]⟩
-
+    · have he : (r.e - r.s == 0) = true := by simpa [nonEmpty] using hne
+      have e1 : mlFlush cfg allCont inp s true = (s.core, .ok true) := by
+        unfold mlFlush; simp only [if_true, hl, if_pos he]
+      rw [e1]
+      exact ⟨s.core, true, rfl, hs, by simp [pendingList, hl, hne]⟩
 
 theorem drop_isEmpty_ge (inp : Bytes) (pos : Nat) : (inp.drop pos).isEmpty = decide (pos ≥ inp.length) := by
   by_cases h : pos ≥ inp.length
